@@ -580,8 +580,11 @@ def _check_ctor(repo, R, h: Handler, hp: HPath, f, line, tparams, ops):
             _c06_fields(R, h, hp, f, line, x, ops, reshaping=True, transposed=True)
             return
         R("C05", "C05.R4", "bad", h, line, f"scale moved by {sorted(ops)}", f"scale of `{x}` is passed through {sorted(ops)}: not valid for this op class", "a per-tensor (0-dim) scale")
+        c06("C06.R8", False, f"scale moved by {sorted(ops)}", f"the scale of `{x}` is re-laid out by {sorted(ops)} alongside the payload: for an op that is not a 2-D transpose nothing ties the new layout of the scale to the axis the result declares",
+            "a per-axis quantized matrix squeezed along a dimension that is not of size one: the codes keep their shape, the scale loses a dimension and no longer lies along the declared axis")
         return
     R("C05", "C05.R4", "bad", h, line, f"scale term for {sorted(ops)}", f"scale `{stxt[:80]}` is neither the operand's scale nor the op applied to it", "any input")
+    c06("C06.R8", False, f"scale term for {sorted(ops)}", f"scale `{stxt[:80]}` of a re-wrapped tensor is neither the operand's scale nor the op applied to it: nothing ties it to the axis the result declares", "any per-axis operand")
 
 
 def _c06_fields(R, h: Handler, hp: HPath, f, line, x, ops, reshaping: bool, transposed: bool = False, check_axis: bool = False):
@@ -784,6 +787,19 @@ def _dispatch_rules(repo: Repo, hs) -> List[Rec]:
                 fnparams = positional_params(h.fn)
                 ok = kind == "return" and isinstance(expr, ast.Call) and U(expr.func) == "qfallback" and [U(a) for a in expr.args] == [fnparams[0], f"*{h.fn.args.vararg.arg}" if h.fn.args.vararg else ""] and [(k.arg, U(k.value)) for k in expr.keywords] == [(None, h.fn.args.kwarg.arg if h.fn.args.kwarg else "")]
                 recs.append(Rec("C05", "C05.R8", "ok" if ok else "bad", f"{h.mi.rel}:{line}", h.name, "dequantizing function wrapper", f"wrapper for {h.ops} returns qfallback(func, *args, **kwargs): {ok}", "any call of these functions with a quantized argument"))
+    # exhaustiveness: a wrapper registered for a torch function none of the rules knows is reported as undecided, never passed over
+    KNOWN_FUNCS = ("linear", "cross_entropy", "cosine_similarity", "layer_norm", "log_softmax", "topk", "_has_compatible_shallow_copy_type")
+    for h in hs["qfunc"]:
+        strangers = [o for o in h.ops if o.split(".")[-1] not in KNOWN_FUNCS]
+        if strangers:
+            recs.append(Rec("C05", "C05.R8", "unknown", f"{h.mi.rel}:{h.fn.lineno}", h.name, "", f"function wrapper {h.name} is registered for {strangers}: no rule of this checker describes what a quantized implementation of it must compute"))
+    # the low-bit table: moves, detach and clone are judged by the move rules (C06.R2 / R4); any other handler is undecided
+    KNOWN_QBITS = ("aten._to_copy", "aten.detach", "aten.clone")
+    for h in hs["qbits"]:
+        strangers = [o for o in h.ops if o not in KNOWN_QBITS]
+        if strangers:
+            for pid_, rule_ in (("C05", "C05.R1"), ("C06", "C06.R2")):
+                recs.append(Rec(pid_, rule_, "unknown", f"{h.mi.rel}:{h.fn.lineno}", h.name, "", f"QBitsTensor handler {h.name} is registered for {strangers}: only moves, detach and clone of sub-byte tensors are described by the rules"))
     # qfallback
     mi, qf = repo.func("qfallback")
     ps = [p_ for p_ in paths_of(qf) if p_.end[0] != "raise"]
